@@ -178,15 +178,15 @@ Proof.
   - (* unop *) destruct o; cbn [unop_name]; [lst|].
     apply good_tok; [cbn [tok_ok OP]; unfold op_names; rewrite Hq; reflexivity|follow|]. lst.
   - lst.
-  - lst.
-  - lst.
+  - (* load *) destruct vol; cbn [l_vol app]; lst.
+  - (* store *) destruct vol; cbn [l_vol app]; lst.
   - lst.
   - lst.
   - lst.
   - lst.
   - (* phi *) apply free_good_app; [lst|]. apply good_join. intros p Hin.
     rewrite forallb_forall in Hq. specialize (Hq p Hin). split_and Hq. lst.
-  - lst.
+  - (* undefined *) destruct t as [t|]; cbn [l_instr]; [apply free_good_app; [now apply free_assign|lst]|lst].
   - (* callf *) apply good_app; [lst|apply safe_start_op; reflexivity|now apply good_args].
   - (* callp *) apply good_app; [lst|apply safe_start_op; reflexivity|now apply good_args].
   - lst.
